@@ -207,7 +207,7 @@ async def execute(case, with_fault=True):
         recs = [(round(vt - t0, 3), list(a)) for vt, a, kw in it.records]
         left = {"our_tasks": len([t for t in Function.our_tasks if not t.done()]), "task2cb": len(Function.task2cb), "task2context": len(Function.task2context),
                 "unique": len(Function.unique_name2task) + len(Function.unique_task2name)}
-        errs = [e[2][-200:] for e in it.errors()]
+        errs = [e[2][-400:] for e in it.errors()]
         states = {p: ("cancelled" if t.cancelled() else "done" if t.done() else "pending") for p, t in task_of.items()}
         await it.unload()
     return {"recs": recs, "base": base, "left": left, "errors": errs, "fault_hit": fault_hit, "loop_exc": it.loop_exceptions, "states": states}
@@ -238,8 +238,17 @@ def analyse(case, r_fault, r_clean):
     if case["fault"] and r_fault["fault_hit"] is not None:
         fam = related(case, case["fault"]["pid"])
         a, b = per_pid(r_fault["recs"]), per_pid(r_clean["recs"])
+        # a child that is cancelled by its parent while it may sit in task.executor: whether the executor job finished
+        # first is decided by the OS thread scheduler, not by the harness - such families are not compared
+        racy = set()
+        for t in case["tasks"]:
+            progs = {t["pid"]: t["steps"]}
+            progs.update({s_[1]: s_[2] for s_ in t["steps"] if s_[0] == "create"})
+            targets = {s_[1] for st in progs.values() for s_ in st if s_[0] == "cancel"}
+            if any(any(x[0] == "executor" for x in progs.get(c, [])) for c in targets):
+                racy |= set(progs)
         for pid in set(a) | set(b):
-            if pid in fam:
+            if pid in fam or pid in racy:
                 continue
             if a.get(pid) != b.get(pid):
                 problems.append("other-run-disturbed")
@@ -329,6 +338,13 @@ def analyse(case, r_fault, r_clean):
                     problems.append(f"{label}:executor-same-thread")
         if r["loop_exc"]:
             problems.append(f"{label}:loop-exception-handler-invoked")
+        # 6. the only errors a graph may log are the ones its programs ask for: KeyError('boom') of a raise step and
+        #    ValueError('cb failed') of the raising callback (the executor's ValueError is caught by the program)
+        #    (task.cancel / add_done_callback aimed at a task that has already ended raise TypeError / KeyError naming
+        #    the finished task: what they should do then is not specified, so those are tolerated)
+        for e in r["errors"]:
+            if "boom" not in e and "cb failed" not in e and "<Task finished" not in e and "<Task cancelled" not in e:
+                problems.append(f"{label}:unexpected-error")
     # return values / exceptions: 'return v' -> result v, raise -> None (logged), fall off -> 'ret-pid'
     return sorted(set(problems))
 
@@ -346,7 +362,7 @@ class C14(ModelCheck):
         "arguments after its task ended for any reason, removed ones never; task.wait returns only when the task is "
         "done and cancelled() reflects the outcome; our_tasks / task2cb / task2context / unique tables are back to "
         "their baseline at quiescence; task.executor returns or raises like the plain call and runs on another "
-        "thread; the loop's exception handler is never invoked. Non-trivial = the fault lands while a callback is "
+        "thread; the loop's exception handler is never invoked and nothing but the exceptions the programs raise on purpose is logged. Non-trivial = the fault lands while a callback is "
         "registered on the victim or one of its relatives; distinct by case content."
     )
     assumptions = ["the interleaving of the executor thread with the loop is left to the OS", "independence is judged in virtual time (CPU cost of a run is invisible by construction)"]
